@@ -29,7 +29,14 @@ def extract(F):
                 if on[0] == "discr" and P.strip(on[1]) == ("param", 1) and lab != "otherwise":
                     arm = I.variant_by_discr(F, RANK_PAIR, lab)
         if arm is None:
-            raise Unrecognised("combos", "a CardPair::new call is not inside a variant arm", fn.path, fn.line)
+            sel = selected_table_form(F, fn, pr, fl, bi, t)
+            if sel is None:
+                raise Unrecognised("combos", "a CardPair::new call is not inside a variant arm", fn.path, fn.line)
+            for v_, combos_ in sel.items():
+                for combo in combos_:
+                    tables.setdefault(v_, []).append((combo, bi))
+                comprehension_arms.add(v_)
+            continue
         cards = []
         for a in t["args"]:
             c = P.strip(pr.operand(a))
@@ -95,6 +102,93 @@ def suit_loop(F, fn, pr, fl, bi, su):
         if bi in lp.body and P.strip(su) == P.strip(lp.item_term) and _all_suits_domain(F, fn, lp):
             return lp
     return None
+
+
+def _pushed_into_returned_vec(fn, pr, loop, bi, t):
+    call_t = pr.call_term(t, bi)
+    pushed = [pb for pb, ptm in fn.calls() if ptm["callee"].get("name") == "push" and pb in loop.body and len(ptm["args"]) == 2
+              and P.strip(pr.operand(ptm["args"][1]), calls=False) == call_t]
+    if len(pushed) != 1 or not fn.cfg.dominates(bi, pushed[0]) or not L.in_every_iteration(fn, loop, pushed[0]):
+        return False
+    vec = P.strip(pr.operand(fn.blocks[pushed[0]]["term"]["args"][0]), calls=False)
+    rets = [P.strip(a, calls=False) for a in P.alts(pr.local(0))]
+    return any(r[0] == "call" and r[1].rsplit("::", 1)[-1] == "into_iter" and r[2] and P.strip(r[2][0], calls=False) == vec for r in rets)
+
+
+def selected_table_form(F, fn, pr, fl, bi, t):
+    """one shared `table.iter().map(|&(a, b)| CardPair::new(Card::new(high, a), Card::new(kicker, b)))` after a match that picks
+    (high, kicker, table) per variant, the tables being constant arrays of suit pairs: {variant: combos}, else None"""
+    card_new = CARD + "::new"
+    loops = [lp for lp in fl if bi in lp.body]
+    if len(loops) != 1:
+        return None
+    lp = loops[0]
+    src, chain = lp.chain()
+    if any(c.rsplit("::", 1)[-1] not in ("iter", "into_iter", "copied") for c in chain):
+        return None
+    item = P.strip(lp.item_term)
+
+    def unref(u):
+        u = P.strip(u)
+        return ("field", unref(u[1]), u[2]) if u[0] == "field" else u
+    cards = []
+    for a in t["args"]:
+        c = P.strip(pr.operand(a))
+        if not (c[0] == "call" and c[1] == card_new and len(c[2]) == 2):
+            return None
+        su = unref(c[2][1])
+        if not (su[0] == "field" and su[1] == item and su[2] in (0, 1)):
+            return None
+        cards.append((P.strip(c[2][0]), su[2]))
+    # the per-variant tuples (rank, rank, table) built in the arms of a match on self
+    arms = {}
+    for b2 in sorted(fn.cfg.reachable):
+        for st in fn.blocks[b2]["stmts"]:
+            if st["k"] == "assign" and st["rv"].get("agg") == "tuple" and len(st["rv"]["ops"]) == 3:
+                arm = None
+                for (s0, lab, dst) in fn.cfg.dominating_edges(b2):
+                    tt = fn.blocks[s0]["term"]
+                    if tt["k"] == "switch":
+                        on = pr.operand(tt["on"])
+                        if on[0] == "discr" and P.strip(on[1]) == ("param", 1) and lab != "otherwise":
+                            arm = I.variant_by_discr(F, RANK_PAIR, lab)
+                if arm is None or arm in arms:
+                    return None
+                arms[arm] = [pr.operand(o) for o in st["rv"]["ops"]]
+    if set(arms) != {"Pocket", "Suited", "Ofsuit"}:
+        return None
+
+    def component(term):
+        """index i with {alternatives of term} == {component i of each arm's tuple}"""
+        alts_ = {P.strip(a) for a in P.alts(term)}
+        for i in range(3):
+            if {P.strip(ops[i]) for ops in arms.values()} == alts_ and len(alts_) >= 1:
+                return i
+        return None
+    ci = [component(rk) for rk, _k in cards]
+    si = component(P.strip(src))
+    if None in ci or si is None or si in ci:
+        return None
+    if not _pushed_into_returned_vec(fn, pr, lp, bi, t):
+        return None
+    out = {}
+    for arm, ops in arms.items():
+        tb = P.strip(ops[si])
+        while tb[0] == "cast" and tb[1] == "PointerCoercion":
+            tb = P.strip(tb[2])
+        if tb[0] != "named":
+            return None
+        tv = F.const_value(tb[1])
+        if not tv or "array" not in tv or not all(isinstance(e, list) and len(e) == 2 and all(x in SUITS for x in e) for e in tv["array"]):
+            return None
+        ranks = []
+        for i in ci:
+            rk = P.strip(ops[i])
+            if not (rk[0] == "field" and rk[1][0] == "variant" and P.strip(rk[1][1]) == ("param", 1) and rk[1][2] == arm):
+                return None
+            ranks.append(rk[2])
+        out[arm] = [tuple((ranks[k], e[cards[k][1]]) for k in range(2)) for e in tv["array"]]
+    return out
 
 
 def expand_comprehension(F, fn, pr, fl, bi, t, cards):
